@@ -42,17 +42,18 @@ def normFs : List (Name × PValue) → List (Name × PValue)
 end
 
 mutual
-def noFloatV : PValue → Bool
-  | .float _ => false
-  | .list xs => noFloatVs xs
-  | .obj fs => noFloatFs fs
+/-- no float in the value is the infinite double (the parser rejects those) -/
+def finV : PValue → Bool
+  | .float b => b != AGV.F64.infBits
+  | .list xs => finVs xs
+  | .obj fs => finFs fs
   | _ => true
-def noFloatVs : List PValue → Bool
+def finVs : List PValue → Bool
   | [] => true
-  | x :: xs => noFloatV x && noFloatVs xs
-def noFloatFs : List (Name × PValue) → Bool
+  | x :: xs => finV x && finVs xs
+def finFs : List (Name × PValue) → Bool
   | [] => true
-  | (_, v) :: fs => noFloatV v && noFloatFs fs
+  | (_, v) :: fs => finV v && finFs fs
 end
 
 /-- `pr` is a `value` pair from which the tree builder computes `v` (at any sufficient fuel) -/
